@@ -456,6 +456,7 @@ def run_property(pid, tier, flags, only, scratch, t0, seed, evidence_path):
         print('blessed %d obligation keys' % len(keys))
     undecided = []
     und_groups = set()   # groups with an undecided item: their failures are not reported; failures of fully decided groups are
+    und_soft = set()     # groups that merely lack an expected obligation (the code changed shape): their failed obligations still stand
     und_global = False
     for r in errors:
         undecided.append('%s: %s' % (r['name'], r['error'])); und_groups.add(r['name'])
@@ -464,11 +465,13 @@ def run_property(pid, tier, flags, only, scratch, t0, seed, evidence_path):
         present = set(keys)
         thorough_only = set()
         for e in exp:
+            if re.match(r'^[^:]+:C: ', e) or '.precondition.' in e:
+                continue  # (files blessed before these classes were excluded from the expected set)
             if e not in present:
                 gname = e.split(':', 1)[0]
                 if gname not in gmap and tier == 'quick':
                     continue  # obligation of a thorough-only group
-                undecided.append('expected obligation missing: ' + e); und_groups.add(gname)
+                undecided.append('expected obligation missing: ' + e); und_soft.add(gname)
     elif not only and '--bless' not in flags:
         undecided.append('no expected.json (run with --bless on the unchanged tree)'); und_global = True
     canaries = [o for o in ledger if o['cls'] == 'canary']
